@@ -452,6 +452,7 @@ func TestC03(t *testing.T) {
 			cases = append(cases, c)
 		}
 	}
+	r.Exhaustive("all single causes and all ordered pairs of the 7 close causes x 3 transports x hooked windows x both release orders (cause pair space only; schedules outside the hooked windows are sampled)")
 	if r.Lane == 0 {
 		for k := 0; k < r.N(4, 100); k++ {
 			for _, cause := range []string{"close-true", "peer-disconnect", "server-close", "transport-error"} {
